@@ -44,8 +44,15 @@ def is_zero(e):
     except Exception:
         pass
     try:
-        if sp.cancel(sp.together(sp.expand(e))) == 0:
+        # a rational expression vanishes iff the numerator over a common denominator does (no polynomial gcd needed)
+        num = sp.fraction(sp.together(e))[0]
+        if sp.expand(num) == 0:
             return True
+        ex = sp.expand(num)
+        pows_ok = all(x.exp.is_Integer and x.exp >= 0 for x in ex.atoms(sp.Pow))
+        funcs_ok = all(isinstance(x, sp.core.function.AppliedUndef) for x in ex.atoms(sp.Function))
+        if pows_ok and funcs_ok:
+            return False  # a non-zero polynomial in symbols and uninterpreted applications: decided
     except Exception:
         pass
     return sp.simplify(e) == 0
@@ -353,7 +360,7 @@ def superlinear_cancellation(expr):
     def _deg(e):
         if not any(e.has(fn) for fn in (A, B, C, D, Cm, Cp)):
             return 0
-        num, den = sp.fraction(sp.cancel(sp.together(sp.expand(shift_all(e, tau)))))
+        num, den = sp.fraction(sp.together(shift_all(e, tau)))
         ee = sp.expand(num)
         taus = sorted(ee.atoms(sp.core.function.AppliedUndef) | den.atoms(sp.core.function.AppliedUndef), key=str)
         taus = [x for x in taus if x.func == tau]
